@@ -1,17 +1,22 @@
 #!/bin/bash
 # usage: mutcheck.sh <seeded-id> <PROP> [<PROP>...]   [TIER=quick]
 # Applies seeded/<id>/patch.diff in a scratch worktree of /repo (never /repo itself) and runs the
-# given checks against that worktree; the verdicts go to seeded/<id>/check.log.
+# given checks against that worktree, from a frozen copy of the machinery; the verdicts go to
+# seeded/<id>/check.log.
 id=$1; shift
 D=/verif/seeded/$id; W=/tmp/vmut-$id
 tier=${TIER:-quick}
-rm -rf $W $W-work $W-ev; git -C /repo worktree prune
+rm -rf $W $W-work $W-ev $W-verif; git -C /repo worktree prune
 git -C /repo worktree add -q --detach $W HEAD || exit 1
 if ! git -C $W apply $D/patch.diff; then echo "$id: PATCH DOES NOT APPLY" | tee -a $D/check.log; git -C /repo worktree remove --force $W; exit 1; fi
+mkdir -p $W-verif
+# frozen copy of the committed machinery (HEAD), so that edits in progress do not disturb the run
+git -C /verif archive HEAD cmd engine shim harness tools go.mod known_findings.json | tar -x -C $W-verif
+(cd $W-verif && GOFLAGS=-mod=mod GOPROXY=off GOSUMDB=off GOTOOLCHAIN=local go1.26.8 build -o vcheck ./cmd/vcheck) || { echo "$id: cannot build frozen vcheck" | tee -a $D/check.log; exit 2; }
 for p in "$@"; do
-  out=$(cd /verif && VERIF_REPO=$W VERIF_WORK=$W-work VERIF_EVIDENCE_DIR=$W-ev ./check $p --tier $tier 2>&1)
+  out=$(cd $W-verif && VERIF_DIR=$W-verif VERIF_REPO=$W VERIF_WORK=$W-work VERIF_EVIDENCE_DIR=$W-ev ./vcheck $p --tier $tier 2>&1 | tr -d '\000')
   rc=$?
   v=$(echo "$out" | grep -m1 -A3 '^VIOLATION' | tr '\n' ' ' | cut -c1-600)
-  echo "== $(date -u +%FT%TZ) $id check=$p tier=$tier repo=$(git -C /repo rev-parse --short HEAD) exit=$rc :: ${v:-$(echo "$out" | tail -1)}" | tee -a $D/check.log
+  echo "== $(date -u +%FT%TZ) $id check=$p tier=$tier repo=$(git -C /repo rev-parse --short HEAD) verif=$(git -C /verif rev-parse --short HEAD) exit=$rc :: ${v:-$(echo "$out" | tail -1)}" | tee -a $D/check.log
 done
-git -C /repo worktree remove --force $W; rm -rf $W-work $W-ev
+git -C /repo worktree remove --force $W; rm -rf $W-work $W-ev $W-verif
